@@ -24,6 +24,7 @@ structure Wire where
   ty        : Ty
   resources : List Res
   removed   : List String
+  nonce     : String := ""     -- the response's nonce (what a conformant client echoes in its ACK)
   deriving Repr, DecidableEq
 
 abbrev Gen := Ty → List String → GenOut
@@ -43,7 +44,7 @@ def pushDeltaOne (gen : Gen) (v : Srv) (t : Ty) (sub unsub : List String) : Srv 
       if v.fail then (v, none, true)
       else
         ({ v with st := sendDelta v.st t (freshNonce v) nn true, ctr := v.ctr + 1 },
-         some { ty := t, resources := resp.resources, removed := resp.removed }, false)
+         some { ty := t, resources := resp.resources, removed := resp.removed, nonce := freshNonce v }, false)
 
 /-- `processDeltaRequest` (debug / health types are outside the model). -/
 def processDelta (gen : Gen) (v : Srv) (r : DReq) : Option (Srv × List Wire) :=
@@ -86,7 +87,7 @@ def pushSotwOne (gen : Gen) (v : Srv) (t : Ty) (sub : List String) : Srv × Opti
       if v.fail then (v, none, true)
       else
         ({ v with st := send v.st t (freshNonce v) true, ctr := v.ctr + 1 },
-         some { ty := t, resources := res, removed := [] }, false)
+         some { ty := t, resources := res, removed := [], nonce := freshNonce v }, false)
 
 /-- `processRequest`. -/
 def processSotw (gen : Gen) (v : Srv) (r : Req) : Option (Srv × List Wire) :=
